@@ -169,7 +169,37 @@ func (g *G) mount(dst string, tag int) nm.Mount {
 	// rprivate is the one propagation option that does not consult the host's mountinfo (W5); it may stand
 	// anywhere in the list
 	opts := [][]string{nil, {"ro"}, {"rw", "rprivate"}, {"bind", "ro"}, {"rprivate", "ro"}, {"rbind", "rprivate", "nosuid", "ro"}}[g.r.Intn(6)]
-	return nm.Mount{Dest: dst, Type: []string{"bind", "tmpfs", ""}[g.r.Intn(3)], Source: fmt.Sprintf("/src/p%d%s", tag, dst), Opts: opts}
+	m := nm.Mount{Dest: dst, Type: []string{"bind", "tmpfs", ""}[g.r.Intn(3)], Source: fmt.Sprintf("/src/p%d%s", tag, dst), Opts: opts}
+	// echo: a fifth of the time a plugin's mount agrees with the mount the container already has at this
+	// destination in type and source — and half of those times in the NUMBER of options too, differing only in
+	// one option's text (a set is a set: the mount must come out as given)
+	if tag > 0 && g.echoC != nil && g.r.Intn(5) == 0 {
+		for _, cur := range g.echoC.Mounts {
+			if cur.Dest != dst {
+				continue
+			}
+			m.Type, m.Source = cur.Type, cur.Source
+			if len(cur.Opts) > 0 && g.r.Intn(2) == 0 {
+				m.Opts = append([]string(nil), cur.Opts...)
+				k := g.r.Intn(len(m.Opts))
+				switch m.Opts[k] {
+				case "ro":
+					m.Opts[k] = "rw"
+				case "rw":
+					m.Opts[k] = "ro"
+				case "nosuid":
+					m.Opts[k] = "nodev"
+				case "bind":
+					m.Opts[k] = "rbind"
+				case "rbind":
+					m.Opts[k] = "bind"
+				default:
+					m.Opts[k] = "noexec"
+				}
+			}
+		}
+	}
+	return m
 }
 
 func (g *G) device(path string, tag int) nm.Device {
